@@ -24,6 +24,15 @@ use std::io::{BufRead, Write};
 static CASE_STARTED_MS: std::sync::atomic::AtomicU64 = std::sync::atomic::AtomicU64::new(0);
 static T0: std::sync::OnceLock<std::time::Instant> = std::sync::OnceLock::new();
 
+/// the watchdog's way out: the main thread holds the stdout lock for the whole run, so the marker line is written to fd 1 directly
+fn give_up() -> ! {
+    use std::os::unix::io::FromRawFd;
+    let mut f = unsafe { std::fs::File::from_raw_fd(1) };
+    let _ = f.write_all(b"-9999\n");
+    let _ = f.flush();
+    std::process::exit(77);
+}
+
 fn main() {
     let _ = T0.set(std::time::Instant::now());
     std::panic::set_hook(Box::new(|info| {
@@ -32,7 +41,8 @@ fn main() {
     }));
     // watchdog: a grant of the baton scheduler that does not return for 20 s (never seen on purpose; a rare stall of the driver /
     // worker hand-over was observed once in ~10^4 cases) ends the process; the Python driver re-runs the case in a fresh process
-    std::thread::spawn(|| {
+    let case_limit_ms: u64 = std::env::var("HARNESS_CASE_LIMIT_MS").ok().and_then(|v| v.parse().ok()).unwrap_or(90_000);
+    std::thread::spawn(move || {
         use std::sync::atomic::Ordering::SeqCst;
         let mut last = (0u64, std::time::Instant::now());
         loop {
@@ -41,16 +51,12 @@ fn main() {
             // a single case that does not come back for 90 s, whatever it is doing (e.g. a send sleeping and retrying for ever on a queue that
             // wrongly calls itself full), ends the process the same way: the driver re-runs it alone and reports it if it stalls again
             let started = CASE_STARTED_MS.load(SeqCst);
-            if started != 0 && T0.get().map(|t| t.elapsed().as_millis() as u64).unwrap_or(0) > started + 90_000 {
-                println!("-9999");
-                let _ = std::io::stdout().flush();
-                std::process::exit(77);
+            if started != 0 && T0.get().map(|t| t.elapsed().as_millis() as u64).unwrap_or(0) > started + case_limit_ms {
+                give_up();
             }
             if p != last.0 || !sched::IN_SCHEDULE.load(SeqCst) { last = (p, std::time::Instant::now()); continue }
             if last.1.elapsed() > std::time::Duration::from_secs(20) {
-                println!("-9999");
-                let _ = std::io::stdout().flush();
-                std::process::exit(77);
+                give_up();
             }
         }
     });
@@ -83,6 +89,7 @@ fn main() {
             "mexec" => mexec::run(&case),
             "status" => exec::run_status(&case),
             "latch" => exec::run_latch(&case),
+            "hang" => { std::thread::sleep(std::time::Duration::from_secs(case.get("secs", 600) as u64)); vec![9] },     // (to test the watchdog)
             other  => panic!("unknown case kind '{other}'"),
         };
         let text: Vec<String> = trace.iter().map(|v| v.to_string()).collect();
